@@ -260,7 +260,7 @@ func (ex *Exec) step(st *State, fr *Frame, in ssa.Instruction) bool {
 		x := ex.val(st, in.X)
 		idx := ex.val(st, in.Index).T
 		ex.check(st, in, "index", And(Ge(idx, IntLit(0)), Lt(idx, SeqLen(x.T))))
-		ex.setVal(st, in, SVal{Val: Val{T: SeqNth(x.T, idx), Typ: in.Type()}})
+		ex.setVal(st, in, SVal{Val: Val{T: fc.elemGet(x.T, idx, in.Type()), Typ: in.Type()}})
 	case *ssa.Field:
 		x := ex.val(st, in.X)
 		stT, s := derefStruct(in.X.Type())
@@ -529,7 +529,7 @@ func (ex *Exec) load(st *State, in ssa.Instruction, a SVal) SVal {
 				}
 			}
 		}
-		v := SeqNth(a.IAddr.seq.T, a.IAddr.idx)
+		v := fc.elemGet(a.IAddr.seq.T, a.IAddr.idx, et)
 		st.assume(fc.wellFormed(v, et, st.alloc()))
 		st.assume(fc.typeInvariant(v, et))
 		st.assume(fc.objInvFact(st.heap, st.alloc(), v, et))
@@ -1113,12 +1113,12 @@ func (ex *Exec) slice(st *State, in *ssa.Slice) {
 		ex.fc.declSort(s)
 		seq = SeqEmpty(s)
 		for _, e := range x.Arr.elems {
-			seq = SeqConcat(seq, SeqUnit(e.T))
+			seq = SeqConcat(seq, SeqUnit(ex.fc.elemPut(e.T, e.Typ)))
 		}
 		if len(x.Arr.elems) > 1 {
 			var parts []*Term
 			for _, e := range x.Arr.elems {
-				parts = append(parts, SeqUnit(e.T))
+				parts = append(parts, SeqUnit(ex.fc.elemPut(e.T, e.Typ)))
 			}
 			seq = App(s, "seq.++", parts...)
 		}
